@@ -110,9 +110,29 @@ func (vc *VC) freshByteSlice(st *State, base string, n Term, b Term) Term {
 
 func maxLenTerm() Term { return "281474976710656" }
 
+// f64Bits declares the bit-cast pair math.Float64bits / math.Float64frombits: uninterpreted, mutually
+// inverse (a bit cast loses nothing in either direction), bits in [0, 2^64).
+func (vc *VC) f64Bits() string {
+	if !vc.declSet["f64.bits"] {
+		vc.S.useF64 = true
+		vc.declareFun("f64.bits", []string{"F64"}, "Int")
+		vc.declareFun("f64.frombits", []string{"Int"}, "F64")
+		vc.quantCtx = true
+		vc.addAssume("true", "(forall ((x F64)) (! (and (= (f64.frombits (f64.bits x)) x) (<= 0 (f64.bits x)) (< (f64.bits x) 18446744073709551616)) :pattern ((f64.bits x))))")
+		vc.addAssume("true", "(forall ((n Int)) (! (=> (and (<= 0 n) (< n 18446744073709551616)) (= (f64.bits (f64.frombits n)) n)) :pattern ((f64.frombits n))))")
+		vc.assume("assumed contract: math.Float64bits and math.Float64frombits are mutually inverse bit casts between float64 and [0, 2^64)")
+	}
+	return "f64.bits"
+}
+
 // bytesStdlib: assumed contracts of static library functions over byte sequences.
 func (vc *VC) bytesStdlib(name string, args []Val, st *State, reach Term, rt types.Type, pos token.Pos) (Val, bool) {
 	switch name {
+	case "math.Float64bits":
+		return Val{t: app(vc.f64Bits(), args[0].t), typ: rt}, true
+	case "math.Float64frombits":
+		vc.f64Bits()
+		return Val{t: app("f64.frombits", args[0].t), typ: rt}, true
 	case "crypto/sha1.New":
 		vc.bytesOn()
 		d := vc.freshConst("hash", "Dyn")
